@@ -35,7 +35,10 @@ def gen_topic(rng: random.Random, tier: str) -> dict:
         t += rng.choice([0, 1, 2, 5, 30, 100])
         kind = rng.choices(["pub", "sub", "unsub"], weights=[5, 2, 2])[0]
         if kind == "pub":
-            ops.append({"t": t, "op": "pub", "pid": pid, "mode": rng.choice(["event", "gen", "gen", "sync"])})
+            op = {"t": t, "op": "pub", "pid": pid, "mode": rng.choice(["event", "gen", "gen", "sync"])}
+            if pid > 0 and rng.random() < 0.15:
+                op["same_as"] = rng.randrange(pid)  # the very same payload Event object is published again
+            ops.append(op)
             pid += 1
         elif kind == "sub":
             ops.append({"t": t, "op": "sub", "c": rng.randrange(n_subs), "replay": rng.random() < 0.4})
@@ -85,7 +88,13 @@ class _TopicDriver(Entity):
         kind = op["op"]
         if kind == "pub":
             pid = op["pid"]
-            msg = Event(time=self.now, event_type="payload", target=self, context={"pid": pid})
+            msg = ctx["payloads"].get(op.get("same_as"))
+            if msg is None:
+                msg = Event(time=self.now, event_type="payload", target=self, context={"pid": pid})
+            else:
+                ctx["republished"] = True
+            ctx["payloads"][pid] = msg
+            pid = msg.context["pid"]  # receipts are identified by the payload; expectations count publish CALLS per payload
             ctx["pubs"].append({"t": now, "pid": pid, "mode": op["mode"]})
             ctx["pub_instants"].add(now)
             if op["mode"] == "event":
@@ -142,6 +151,7 @@ def run_topic(case: dict) -> Result:
         "subs": subs,
         "res": res,
         "pubs": [],
+        "payloads": {},
         "pub_instants": set(),
         "changes": {s.name: [] for s in subs},
         "change_instants": {},
@@ -177,35 +187,38 @@ def run_topic(case: dict) -> Result:
     discarded = [tt for tt in p.time_travel if tt.get("event_type") == "topic_message"]
     missing = []
     expected_total = 0
+    by_label = {}
     for pub in ctx["pubs"]:
-        x = pub["t"]
+        by_label.setdefault(pub["pid"], []).append(pub)
+    for label, pubs_l in by_label.items():
+        mode_l = "+".join(sorted({q["mode"] for q in pubs_l}))
         for s in subs:
-            if x in ctx["change_instants"].get(s.name, ()):
+            if any(q["t"] in ctx["change_instants"].get(s.name, ()) for q in pubs_l):
                 res.count("ties_skipped")
                 continue
-            active = _active_at(ctx["changes"][s.name], s.name in initial, x)
-            times = got.get((pub["pid"], s.name), [])
-            res.count("fanout_pairs_checked")
-            if active:
-                expected_total += 1
-                if len(times) == 0:
-                    missing.append((pub["pid"], s.name, pub["mode"]))
-                elif len(times) > 1:
-                    res.add(
-                        "delivered-more-than-once",
-                        "Topic",
-                        f"mode={pub['mode']}",
-                        f"pid={pub['pid']} reached {s.name} {len(times)} times at {times}",
-                    )
-                elif times[0] < x:
-                    res.add("delivered-before-publish", "Topic", f"mode={pub['mode']}", f"pid={pub['pid']} at {times[0]} < {x}")
-            elif times:
+            want = sum(1 for q in pubs_l if _active_at(ctx["changes"][s.name], s.name in initial, q["t"]))
+            times = got.get((label, s.name), [])
+            res.count("fanout_pairs_checked", len(pubs_l))
+            expected_total += want
+            x = min(q["t"] for q in pubs_l)
+            if len(times) < want:
+                missing.extend([(label, s.name, mode_l)] * (want - len(times)))
+            elif len(times) > want and want > 0:
+                res.add(
+                    "delivered-more-than-once",
+                    "Topic",
+                    f"mode={mode_l}",
+                    f"payload {label} published {want} times while {s.name} was active reached it {len(times)} times at {times}",
+                )
+            elif len(times) > want:
                 res.add(
                     "delivered-to-inactive-subscriber",
                     "Topic",
-                    f"mode={pub['mode']}",
-                    f"pid={pub['pid']} published at {x}ns reached {s.name} which was not an active subscriber then",
+                    f"mode={mode_l}",
+                    f"payload {label} published at {[q['t'] for q in pubs_l]}ns reached {s.name} which was not an active subscriber then",
                 )
+            if times and min(times) < x:
+                res.add("delivered-before-publish", "Topic", f"mode={mode_l}", f"payload {label} at {min(times)} < {x}")
     if missing:
         modes = sorted({m for _, _, m in missing})
         if L_ns > 0 and len(discarded) >= len(missing) and all(m in ("event", "gen") for m in modes):
@@ -240,7 +253,7 @@ def run_topic(case: dict) -> Result:
             res.count("replays_checked")
             if n_same != 1 or tie_at_cut:
                 continue
-            in_time_order = all(t_of.get(a, -1) <= t_of.get(b, -1) for a, b in zip(seen, seen[1:]))
+            in_time_order = ctx.get("republished") or all(t_of.get(a, -1) <= t_of.get(b, -1) for a, b in zip(seen, seen[1:]))
             if sorted(seen) != sorted(hist) or not in_time_order:
                 res.add(
                     "replay-differs-from-retained-history",
